@@ -162,12 +162,12 @@ CHALLENGES = (b'\x01' * 20, b'#' * 20, b'#CHALLENGE#' + b'\x05' * 9, b'EGNAL' + 
 
 def h_mutual(ka: int, kb: int, ch: int) -> bool:
     """
-    pre: 0 <= ka < len(KEYS) and 0 <= kb < len(KEYS) and 0 <= ch < 2 * len(CHALLENGES)
+    pre: 0 <= ka < len(KEYS) and 0 <= kb < len(KEYS) and 0 <= ch <= len(CHALLENGES)
     post: _
     """
     ch = realize(ch)
     c1 = CHALLENGES[ch % len(CHALLENGES)]
-    c2 = c1 if ch >= len(CHALLENGES) else CHALLENGES[(ch + 1) % len(CHALLENGES)]
+    c2 = c1 if ch == len(CHALLENGES) else CHALLENGES[(ch + 1) % len(CHALLENGES)]      # the last case: the same challenge in both directions
     return _mutual(_key(ka), _key(kb), c1, c2, False)
 
 
